@@ -157,7 +157,7 @@ fn enum_tokens(ctx: &mut Ctx, maxlen: u32) {
 }
 
 /// Keep bracket nesting within the property's bound of 64.
-fn nesting_ok(text: &str) -> bool {
+pub fn nesting_ok(text: &str) -> bool {
     let mut depth: i32 = 0;
     let mut run = 0;
     for ch in text.chars() {
